@@ -42,6 +42,7 @@ import uuid
 
 from hypothesis import strategies as st
 
+DOTTED_MODULES = True  # module M1 (M3, ...) of every program is `vupkg<tag>.m1`: a module inside a package
 PATTERN_FLAGS = False  # set by C13 in its worker processes (see scalar_values)
 SCALARS = ["int", "bool", "float", "str", "Decimal", "Fraction", "UUID", "PurePosixPath", "PureWindowsPath",
            "Path", "Pattern", "date", "datetime", "time", "timedelta"]
@@ -164,6 +165,7 @@ class Materialised:
         self._declared: set = set()
         self._future: dict[int, bool] = {}
         self._late: list = []
+        self._packages: list = []
         try:
             self._collect(spec)
             for ls in self._late:   # named aliases over classes that had to exist first
@@ -182,13 +184,23 @@ class Materialised:
 
     # -- modules ----------------------------------------------------------------------------
     def modname(self, i):
-        return f"vu{self.tag}_m{i}"
+        # odd-numbered modules live in a package (a dotted module name), like most real modules
+        return f"vupkg{self.tag}.m{i}" if (DOTTED_MODULES and i % 2 == 1) else f"vu{self.tag}_m{i}"
 
     def _module(self, i):
         m = self.modules.get(i)
         if m is None:
             m = types.ModuleType(self.modname(i))
             sys.modules[m.__name__] = m
+            if "." in m.__name__:
+                pkg_name = m.__name__.rsplit(".", 1)[0]
+                pkg = sys.modules.get(pkg_name)
+                if pkg is None:
+                    pkg = types.ModuleType(pkg_name)
+                    pkg.__path__ = []
+                    sys.modules[pkg_name] = pkg
+                    self._packages.append(pkg_name)
+                setattr(pkg, m.__name__.rsplit(".", 1)[1], m)
             exec(PRELUDE, m.__dict__)  # noqa: S102
             self.modules[i] = m
             for j, other in self.modules.items():
@@ -206,6 +218,8 @@ class Materialised:
     def close(self):
         for m in self.modules.values():
             sys.modules.pop(m.__name__, None)
+        for pk in self._packages:
+            sys.modules.pop(pk, None)
         self.modules = {}
 
     def __enter__(self):
